@@ -201,6 +201,9 @@ func (d *Decl) Source() string {
 		return "func " + d.Name + "[" + d.Target + " any](v " + d.Target + ") " + d.Target + " {\n\treturn v\n}\n"
 	case "uses":
 		return "var _ " + d.Target + "\n"
+	case "raw":
+		// verbatim source (worlds for the real devpkg generators)
+		return strings.Join(d.Fields, "\n") + "\n"
 	}
 	panic("unknown decl kind " + d.Kind)
 }
